@@ -206,6 +206,21 @@ impl<'d> Rd<'d> {
         Ok((span.start, span.end))
     }
 
+    /// `n` raw bytes through `Reader::stream()` (plain readers only; `None` for NsReader,
+    /// which does not expose `stream()` mutably)
+    pub fn raw(&mut self, n: usize, via: u8) -> Option<Result<Vec<u8>, std::io::Error>> {
+        let (t, m) = (self.timers.clone(), self.max_ticks);
+        match &mut self.r {
+            AnyReader::Slice(r) => Some(raw_sync(&mut r.stream(), n, via)),
+            AnyReader::Sync(r) => Some(raw_sync(&mut r.stream(), n, via)),
+            AnyReader::Async(r) => {
+                let mut st = r.stream();
+                Some(run(raw_async(&mut st, n, via), &t, m))
+            }
+            _ => None,
+        }
+    }
+
     /// read_text (slice flavours only)
     pub fn read_text(&mut self, end: &[u8]) -> Option<Result<String, Error>> {
         let q = QName(end);
@@ -275,6 +290,8 @@ pub enum ErrClass {
 pub enum Out {
     Ev(Event<'static>),
     Err { dbg: String, class: ErrClass },
+    /// bytes obtained through Reader::stream()
+    Raw(Vec<u8>),
 }
 
 impl Out {
@@ -310,6 +327,7 @@ impl Out {
                 }
             }
             Out::Err { dbg, .. } => format!("Err({})", dbg),
+            Out::Raw(b) => format!("Raw({:?})", String::from_utf8_lossy(b)),
         }
     }
 }
@@ -321,4 +339,75 @@ pub struct Step {
     pub pos: u64,
     pub epos: u64,
     pub enc: &'static str,
+}
+
+fn raw_sync<S: std::io::Read + std::io::BufRead>(s: &mut S, n: usize, via: u8) -> Result<Vec<u8>, std::io::Error> {
+    let mut buf = vec![0u8; n];
+    match via % 3 {
+        0 => {
+            s.read_exact(&mut buf)?;
+        }
+        1 => {
+            let mut got = 0;
+            while got < n {
+                let avail = s.fill_buf()?;
+                if avail.is_empty() {
+                    break;
+                }
+                let k = avail.len().min(n - got);
+                buf[got..got + k].copy_from_slice(&avail[..k]);
+                s.consume(k);
+                got += k;
+            }
+            buf.truncate(got);
+        }
+        _ => {
+            let mut got = 0;
+            while got < n {
+                let k = s.read(&mut buf[got..])?;
+                if k == 0 {
+                    break;
+                }
+                got += k;
+            }
+            buf.truncate(got);
+        }
+    }
+    Ok(buf)
+}
+
+async fn raw_async<S: tokio::io::AsyncRead + tokio::io::AsyncBufRead + Unpin>(s: &mut S, n: usize, via: u8) -> Result<Vec<u8>, std::io::Error> {
+    use tokio::io::{AsyncBufReadExt, AsyncReadExt};
+    let mut buf = vec![0u8; n];
+    match via % 3 {
+        0 => {
+            s.read_exact(&mut buf).await?;
+        }
+        1 => {
+            let mut got = 0;
+            while got < n {
+                let avail = s.fill_buf().await?;
+                if avail.is_empty() {
+                    break;
+                }
+                let k = avail.len().min(n - got);
+                buf[got..got + k].copy_from_slice(&avail[..k]);
+                s.consume(k);
+                got += k;
+            }
+            buf.truncate(got);
+        }
+        _ => {
+            let mut got = 0;
+            while got < n {
+                let k = s.read(&mut buf[got..]).await?;
+                if k == 0 {
+                    break;
+                }
+                got += k;
+            }
+            buf.truncate(got);
+        }
+    }
+    Ok(buf)
 }
